@@ -29,7 +29,7 @@ package ircserver
 // allocated(x): x is an object that exists in the current heap (true of every reference a Go program can hold;
 // stated so that freshly allocated objects are known to differ from the ones the maps hold).
 //@ pred wfSessions(i *IRCServer) = i.sessions != nil && (forall id robust.Id :: id in i.sessions ==> i.sessions[id] != nil && allocated(i.sessions[id]) && i.sessions[id].Id == id && i.sessions[id].Channels != nil && allocated(i.sessions[id].Channels) && i.sessions[id].invitedTo != nil && allocated(i.sessions[id].invitedTo)) && (forall a robust.Id, b robust.Id :: a in i.sessions && b in i.sessions ==> i.sessions[a].Channels != i.sessions[b].invitedTo)
-//@ pred wfNicks(i *IRCServer) = i.nicks != nil && (forall n lcNick :: n in i.nicks ==> i.nicks[n] != nil && allocated(i.nicks[n]) && i.nicks[n].Id in i.sessions && i.sessions[i.nicks[n].Id] == i.nicks[n])
+//@ pred wfNicks(i *IRCServer) = i.nicks != nil && (forall n lcNick :: n in i.nicks ==> i.nicks[n] != nil && allocated(i.nicks[n]) && i.nicks[n].Id in i.sessions && i.sessions[i.nicks[n].Id] == i.nicks[n] && NickToLower(i.nicks[n].Nick) == n && !i.nicks[n].deleted)
 // symmetric membership, one direction: a live session that lists a channel is listed by that channel
 // (the other direction is in wfChannels: every member is an owned nickname)
 //@ pred wfMember(i *IRCServer) = forall id robust.Id, ch lcChan :: id in i.sessions && !i.sessions[id].deleted && ch in i.sessions[id].Channels ==> i.sessions[id].Nick != "" && ch in i.channels && NickToLower(i.sessions[id].Nick) in i.channels[ch].nicks
@@ -40,6 +40,10 @@ package ircserver
 //@ pred msgTime(m *robust.Message) = ite(m.UnixNano == 0, time.Unix(0, m.Id.Id), time.Unix(0, m.UnixNano))
 //@ pred wfLocks(i *IRCServer) = i.sessionsMu != nil && i.lastProcessedMu != nil && i.ConfigMu != nil && i.ServerPrefix != nil
 //@ pred wfBase(i *IRCServer) = i != nil && wfLocks(i) && i.svsholds != nil && i.Config.Banned != nil
+// sessions created through the API (Reply == 0) carry the random session secret (>= 8 bytes are used as captcha challenge)
+//@ pred wfAuth(i *IRCServer) = forall id robust.Id :: id in i.sessions && id.Reply == 0 ==> len(i.sessions[id].auth) >= 8
+// between entries no session is marked deleted (MaybeDeleteSession removes them at the end of every entry)
+//@ pred wfAlive(i *IRCServer) = forall id robust.Id :: id in i.sessions ==> !i.sessions[id].deleted
 //@ pred wfMid(i *IRCServer) = wfBase(i) && wfSessions(i) && wfNicks(i) && wfChannels(i) && wfMember(i) && wfOwner(i)
 
 // A reply context under construction: send() indexes the last message when
@@ -180,6 +184,7 @@ package ircserver
 // an immutable package variable); nothing else about it is assumed here.
 //@ func NickToLower
 //@   pure
+//@   ensures empty: (result == "") <==> (nick == "")
 //@ func ChanToLower
 //@   pure
 
@@ -202,20 +207,29 @@ package ircserver
 // End of a session (QUIT, KILL, ban, expiry, DELETE): its nickname is free and
 // it is on no channel any more; the Session object itself stays in
 // i.sessions, marked deleted, until MaybeDeleteSession.
+//@ pred wfMemberExcept(i *IRCServer, x *Session) = forall id robust.Id, ch lcChan :: id in i.sessions && i.sessions[id] != x && !i.sessions[id].deleted && ch in i.sessions[id].Channels ==> i.sessions[id].Nick != "" && ch in i.channels && NickToLower(i.sessions[id].Nick) in i.channels[ch].nicks
 //@ func IRCServer.deleteSessionLocked
-//@   requires wfMid(i) && s != nil
+//@   requires state: wfMid(i) && s != nil
+//@   requires alive: !s.deleted && s.Id in i.sessions && i.sessions[s.Id] == s
 //@   ensures nickfree: !(NickToLower(s.Nick) in i.nicks)
 //@   ensures left: forall ch lcChan :: ch in i.channels ==> !(NickToLower(s.Nick) in i.channels[ch].nicks)
 //@   ensures marked: s.deleted
 //@   ensures othernicks: forall n lcNick :: n != NickToLower(s.Nick) ==> (n in i.nicks <==> old(n in i.nicks)) && (n in i.nicks ==> i.nicks[n] == old(i.nicks[n]))
 //@   ensures nonewchannels: forall ch lcChan :: ch in i.channels ==> old(ch in i.channels) && i.channels[ch] == old(i.channels[ch])
-//@   ensures sessions: wfSessions(i) && (forall x robust.Id :: x in i.sessions <==> old(x in i.sessions))
+//@   ensures samesessions: forall x robust.Id :: (x in i.sessions <==> old(x in i.sessions)) && (x in i.sessions ==> i.sessions[x] == old(i.sessions[x]))
+//@   ensures base: wfBase(i)
+//@   ensures sessions: wfSessions(i)
+//@   ensures nicks: wfNicks(i)
+//@   ensures channels: wfChannels(i)
+//@   ensures member: wfMember(i)
+//@   ensures owner: wfOwner(i)
 //@   modifies map[i.nicks], map[i.channels], maptype(map[lcChan]bool), maptype(map[lcNick]*[2]bool), Session.deleted[s]
 //@   loop range i.channels
-//@     invariant wfSessions(i) && i.channels != nil && i.nicks != nil
-//@     invariant forall ch lcChan :: ch in i.channels ==> old(ch in i.channels) && i.channels[ch] == old(i.channels[ch]) && i.channels[ch] != nil
+//@     invariant wfBase(i) && wfSessions(i) && wfNicks(i) && wfChannels(i) && wfOwner(i) && wfMemberExcept(i, s) && !s.deleted
+//@     invariant forall ch lcChan :: ch in i.channels ==> old(ch in i.channels) && i.channels[ch] == old(i.channels[ch])
 //@     invariant forall ch lcChan :: seen(ch) && ch in i.channels ==> !(NickToLower(s.Nick) in i.channels[ch].nicks)
-//@     invariant forall x robust.Id :: x in i.sessions <==> old(x in i.sessions)
+//@     invariant forall x robust.Id :: (x in i.sessions <==> old(x in i.sessions)) && (x in i.sessions ==> i.sessions[x] == old(i.sessions[x]))
+//@     invariant forall n lcNick :: (n in i.nicks <==> old(n in i.nicks)) && (n in i.nicks ==> i.nicks[n] == old(i.nicks[n]))
 
 //@ func IRCServer.CreateSession
 //@   requires i != nil && wfLocks(i) && wfSessions(i)
@@ -251,7 +265,7 @@ package ircserver
 //@   ensures all: forall id robust.Id :: id in i.sessions && id.Reply == 0 && time.Since(i.sessions[id].LastActivity) > i.Config.SessionExpiration ==> (exists k int :: 0 <= k && k < len(result) && result[k].Session == id)
 //@   modifies
 //@   loop range i.sessions
-//@     invariant forall k int :: 0 <= k && k < len(deletes) ==> deletes[k] != nil && fresh(deletes[k]) && deletes[k].Type == robust.DeleteSession && deletes[k].Session.Reply == 0 && deletes[k].Session in i.sessions && time.Since(i.sessions[deletes[k].Session].LastActivity) > i.Config.SessionExpiration
+//@     invariant forall k int :: 0 <= k && k < len(deletes) ==> deletes[k] != nil && allocated(deletes[k]) && deletes[k].Type == robust.DeleteSession && deletes[k].Session.Reply == 0 && deletes[k].Session in i.sessions && time.Since(i.sessions[deletes[k].Session].LastActivity) > i.Config.SessionExpiration
 //@     invariant forall id robust.Id :: seen(id) && id.Reply == 0 && time.Since(i.sessions[id].LastActivity) > i.Config.SessionExpiration ==> (exists k int :: 0 <= k && k < len(deletes) && deletes[k].Session == id)
 //@     invariant forall id robust.Id :: seen(id) ==> id in i.sessions
 
@@ -263,7 +277,9 @@ package ircserver
 
 //@ func handler
 //@   requires state: wfMid(i) && s != nil && replyOK(reply) && msg != nil
-//@   requires session: s.Id in i.sessions && i.sessions[s.Id] == s
+//@   requires session: s.Id in i.sessions && i.sessions[s.Id] == s && !s.deleted
+//@   requires auth: wfAuth(i)
+//@   ensures auth: wfAuth(i)
 //@   ensures owner: wfOwner(i)
 //@   ensures base: wfBase(i)
 //@   ensures sessions: wfSessions(i)
@@ -275,7 +291,8 @@ package ircserver
 //@   modifies *
 
 //@ func IRCServer.ProcessMessage
-//@   requires state: wfMid(i) && msg != nil && msg.Session in i.sessions
+//@   requires state: wfMid(i) && wfAuth(i) && wfAlive(i) && msg != nil && msg.Session in i.sessions
+//@   ensures auth: wfAuth(i)
 //@   ensures base: wfBase(i)
 //@   ensures sessions: wfSessions(i)
 //@   ensures nicks: wfNicks(i)
@@ -284,3 +301,72 @@ package ircserver
 //@   ensures owner: wfOwner(i)
 //@   ensures reply: result != nil && replyOK(result)
 //@   modifies *
+
+// ---------------------------------------------------------------------------
+// Handlers that need loop invariants (everything else comes from the template)
+
+//@ func IRCServer.cmdWho
+//@   loop range c.nicks
+//@     invariant forall j int :: 0 <= j && j < len(nicks) ==> NickToLower(nicks[j]) in i.nicks
+//@   loop range nicks
+//@     invariant forall j int :: 0 <= j && j < len(nicks) ==> NickToLower(nicks[j]) in i.nicks
+//@     invariant wfMid(i) && replyOK(reply)
+
+//@ func IRCServer.cmdList
+//@   loop range filter
+//@     invariant forall j int :: 0 <= j && j < len(channels) ==> channels[j] in i.channels
+//@   loop range i.channels
+//@     invariant forall j int :: 0 <= j && j < len(channels) ==> channels[j] in i.channels
+//@   loop range channels
+//@     invariant forall j int :: 0 <= j && j < len(channels) ==> channels[j] in i.channels
+//@     invariant wfMid(i) && replyOK(reply)
+
+//@ func IRCServer.cmdPart
+//@   loop range strings.Split(msg.Params[0], ",")
+//@     invariant wfMid(i) && replyOK(reply) && s.Id in i.sessions && i.sessions[s.Id] == s && !s.deleted
+//@     invariant forall x robust.Id :: old(x in i.sessions) ==> x in i.sessions && i.sessions[x] == old(i.sessions[x])
+
+// ---------------------------------------------------------------------------
+// Package-level facts
+
+// The prometheus constructors return non-nil collectors; the variables are assigned by the package
+// initialiser only (checked: post of init).
+//@ globalinv metrics: messagesProcessed != nil && captchasVerified != nil && captchasFailed != nil && captchaChallengesSent != nil
+
+// Every entry of the command table is a non-nil *ircCommand: the table is written by init functions only,
+// each store is a fresh &ircCommand{...} or a copy of an entry registered earlier (checked structurally on
+// the SSA of the init functions: obligation ircserver.Commands/registrations).
+//@ axiom commands: forall k string :: k in Commands ==> Commands[k] != nil
+
+// Go's lower-casing never maps more bytes onto an ASCII prefix than the original had.
+//@ axiom lowerprefix: forall p string, a string :: strings.HasPrefix(strings.ToLower(p), a) ==> len(p) >= len(a)
+
+//@ func extractPassword
+//@   modifies
+
+// login is attempted by NICK, USER and PASS, whichever completes the registration
+//@ func IRCServer.maybeLogin
+//@   requires state: wfMid(i) && s != nil && replyOK(reply) && msg != nil
+//@   requires session: s.Id in i.sessions && i.sessions[s.Id] == s && !s.deleted && s.Id.Reply == 0
+//@   requires auth: wfAuth(i)
+//@   ensures auth: wfAuth(i)
+//@   ensures owner: wfOwner(i)
+//@   ensures base: wfBase(i)
+//@   ensures sessions: wfSessions(i)
+//@   ensures nicks: wfNicks(i)
+//@   ensures channels: wfChannels(i)
+//@   ensures member: wfMember(i)
+//@   ensures reply: replyOK(reply)
+//@   ensures keeps: forall x robust.Id :: old(x in i.sessions) ==> x in i.sessions && i.sessions[x] == old(i.sessions[x])
+//@   modifies *
+
+//@ func IRCServer.generateCaptchaURL
+//@   requires i != nil && i.ConfigMu != nil && s != nil && len(s.auth) >= 8
+//@   modifies
+
+//@ func IRCServer.verifyCaptcha
+//@   requires i != nil && i.ConfigMu != nil && s != nil
+//@   modifies Session.LastSolvedCaptcha[s]
+
+//@ func IRCServer.cmdOper
+//@   ensures stillalive: !s.deleted
